@@ -3,6 +3,8 @@ mod globals;
 mod rename_processor;
 
 use rename_processor::RenameProcessor;
+#[cfg(feature = "verif")]
+pub(crate) use rename_processor::verif_sort_char;
 
 use crate::nodes::Block;
 use crate::process::processors::CollectGlobalsProcessor;
